@@ -66,6 +66,7 @@ type Enc struct {
 	strs      map[string]string
 	constGlobs []T
 	inlineStack []*ssa.Function
+	topFn     *ssa.Function
 	pkg       *ssa.Package
 }
 
